@@ -186,3 +186,74 @@ func VH_C07_bulk() {
 	vhRichReads("C07.bulk.state", db, cur)
 	vhRichSearch("C07.bulk.state", db, cur, "K", "=")
 }
+
+// VH_C07_case: conflicts that exist only after case normalisation.  One
+// object with Q = "a" (unique, lower) is stored; a batch of two new objects
+// with arbitrary ASCII strings q1, q2 arrives through InsertOrUpdateMany or
+// through InsertOrUpdateBulk with chunk size 1 or 2: a chunk is refused iff a
+// member's canonical value equals "a" or the canonical value of an earlier
+// member of the same chunk; refused chunks leave no trace, accepted members are
+// stored in canonical case.
+func VH_C07_case() {
+	cfg := vhCfgs[[]int{0, 1}[vChoice("cfg", 2)]]
+	db, _ := vhOpenRich(cfg)
+	seed := vhNewRich(0, "")
+	seed.Q = "a"
+	if db.InsertOrUpdate(seed) != nil {
+		vAssume(false)
+	}
+	rows := []vhRichRow{{seed.UUID(), vhRichStored(seed)}}
+	L := vBound("LQ", 2)
+	m := []*vRich{vhNewRich(1, ""), vhNewRich(2, "")}
+	m[0].Q = vString("q1", L)
+	m[1].Q = vString("q2", L)
+	l := []string{vhLowerASCII(m[0].Q), vhLowerASCII(m[1].Q)}
+	entry := vChoice("entry", 3) // 0 Many, 1 Bulk chunk 1, 2 Bulk chunk 2
+	var n int
+	var err error
+	csize := 2
+	switch entry {
+	case 0:
+		n, err = db.InsertOrUpdateMany(m[0], m[1])
+	default:
+		csize = entry
+		ch := make(chan Object, 2)
+		ch <- m[0]
+		ch <- m[1]
+		close(ch)
+		n, err = db.InsertOrUpdateBulk(ch, csize)
+	}
+	want := 0
+	cur := rows
+	failed := false
+	for start := 0; start < 2 && !failed; start += csize {
+		end := start + csize
+		if end > 2 {
+			end = 2
+		}
+		bad := false
+		for i := start; i < end; i++ {
+			for r := range cur {
+				bad = vOr(bad, l[i] == cur[r].o.Q)
+			}
+			for j := start; j < i; j++ {
+				bad = vOr(bad, l[i] == l[j])
+			}
+		}
+		if bad {
+			failed = true
+			break
+		}
+		for i := start; i < end; i++ {
+			cur = append(cur, vhRichRow{m[i].UUID(), vhRichStored(m[i])})
+		}
+		want += end - start
+	}
+	vAssert("C07.case.error_iff_conflict_after_normalisation", vIff(err != nil, failed))
+	vAssert("C07.case.count", n == want)
+	if err != nil {
+		vAssert("C07.case.error_class", IsUnique(err))
+	}
+	vhRichReads("C07.case.state", db, cur)
+	vhRichSearch("C07.case.state", db, cur, "Q", "=")
+}
